@@ -252,7 +252,7 @@ func runBin(dir string, args []string, stdin []byte, strace []string) procResult
 				}
 			}
 		case 3: // a connected socket
-			if fds, err := syscall.Socketpair(syscall.AF_UNIX, syscall.SOCK_STREAM, 0); err == nil {
+			if fds, err := syscall.Socketpair(syscall.AF_UNIX, syscall.SOCK_STREAM|syscall.SOCK_CLOEXEC, 0); err == nil {
 				rd, wr := os.NewFile(uintptr(fds[0]), "stdin-socket"), os.NewFile(uintptr(fds[1]), "stdin-socket-peer")
 				cmd.Stdin = rd
 				defer rd.Close()
@@ -435,8 +435,9 @@ func (c18) Run(t *testing.T, sc *Scenario) *Outcome {
 		lwant, _ := libraryRun(nil, lname, lflags, fb)
 		lgot := runBin(dir, largs, stdin, nil)
 		if cmpTriple(lgot, lwant, largs, "--bload run") {
-			// same output and status as the direct run when no parse-time extras are involved
-			if !strings.ContainsAny(flags, "ds") && (lgot.stdout != got.stdout || lgot.status != got.status) {
+			// same output and status as the direct run (parse statistics exist only where there
+			// was a parse; the listing, header included, is the same from source and from the file)
+			if !strings.Contains(flags, "s") && (lgot.stdout != got.stdout || lgot.status != got.status) {
 				bad("bload", "--bload does not reproduce the direct run", fmt.Sprintf("direct: %s; loaded: %s", got.triple, lgot.triple), largs)
 			}
 		}
